@@ -84,6 +84,14 @@ pub fn make_case(spec: &Spec) -> Option<Case> {
     let unchecked = AstDump::new().file(&f);
     let tables = tables_term(&f);
     let nstanzas = f.stanzas.len();
+    // assumption A1 / `tables_consistent` of Model/Checker.v, validated on every case
+    let consistent = {
+        let fq = f.query.as_ref().expect("file query after parse");
+        fq.pattern_count() == nstanzas
+            && (0..nstanzas).all(|i| fq.capture_quantifiers(i).len() == fq.capture_names().len())
+            && f.stanzas.iter().all(|s| s.query.capture_names().iter().all(|n| fq.capture_index_for_name(n).is_some()))
+            && (nstanzas == 0 || fq.capture_index_for_name("__tsg__full_match").is_some())
+    };
     let r = catch_unwind(AssertUnwindSafe(|| f.check().map_err(|e| format!("{:?}", e))));
     let (obs, outcome, impl_txt) = match r {
         Ok(Ok(())) => (format!("(CObsOk ({}))", AstDump::new().file(&f)), "Ok".to_string(), "Ok".to_string()),
@@ -98,6 +106,7 @@ pub fn make_case(spec: &Spec) -> Option<Case> {
     let mut tags = vec![format!("rule:{}", spec.rule), format!("depth:{}", spec.depth), format!("outcome:{}", outcome),
                         format!("stanzas:{}", nstanzas.min(6)), format!("rule->outcome:{}->{}", spec.rule.split(':').next().unwrap_or(""), outcome)];
     for c in &spec.ctx { tags.push(format!("in:{}", c)); }
+    tags.push(format!("tables:{}", if consistent { "consistent" } else { "INCONSISTENT" }));
     Some(Case {
         verdict: format!("c06_verdict {} {}", args, obs),
         detail: format!("c06_detail {}", args),
